@@ -70,3 +70,11 @@ META["C04"] = {
     "note": "Trusts the reference store and event model (rlib); one writer at a time; consumers always receive; with an updates-only subscription and an equivalence, a first write that leaves the masked value unchanged is unspecified and ends the comparison for that subscription.",
     "technique": "model-based history testing with rapid: exact event-log equality against a reference edit script, sentinel-synchronised",
 }
+META["C08"] = {
+    "text": ("Truth-table enumeration x generated histories: all 256 predicates over (id in {a,b}) x (value in {absent,v1,v2,v3}), including predicates true for absent values, are run with "
+             "backpressure on and off against every history of updates/deletes up to length 3 (quick) / 4 (thorough), plus rapid-drawn tables with longer histories, read masks that hide "
+             "the field the predicate reads, updates-only subscriptions, and the booking server's period-intersection predicate with generated bookings. Oracle: seed == filtered list, "
+             "fold(filtered stream) == List(same predicate) == the reference filtered map, and with backpressure the exact per-event decision table."),
+    "note": "Trusts the reference store/event model; 'matches' means exists and satisfies the predicate; lossy subscriptions are judged by their folded view at quiescence (sentinel-synchronised).",
+    "technique": "bounded-exhaustive predicate (truth table) x history enumeration + rapid histories; fold and decision-table oracles",
+}
